@@ -8,7 +8,7 @@ WT="$(mktemp -d /tmp/pyvc-mut-XXXXXX)"
 git -C /repo worktree add -q --detach "$WT/repo" HEAD || exit 3
 ( cd "$WT/repo" && git apply "$PATCH" ) || { echo "patch does not apply"; git -C /repo worktree remove --force "$WT/repo"; rm -rf "$WT"; exit 3; }
 for P in "$@"; do
-  PYVC_REPO="$WT/repo" "$HERE/check" "$P" --tier "${TIER:-quick}" > "$WT/$P.out" 2>&1
+  PYVC_OUT_DIR="$WT/out" PYVC_REPO="$WT/repo" "$HERE/check" "$P" --tier "${TIER:-quick}" > "$WT/$P.out" 2>&1
   rc=$?
   echo "== $P exit=$rc"
   grep -E "^(VIOLATION|UNDECIDED|ENGINE-ERROR|KNOWN-FINDING|\[)" "$WT/$P.out" | cut -c1-400
